@@ -176,7 +176,15 @@ class SequentialPlanValidator(engines.engine.Engine, mixins.PlanValidatorMixin):
             )
 
         msg = None
-        trace: List[State] = [simulator.get_initial_state()]
+        try:
+            trace: List[State] = [simulator.get_initial_state()]
+        except UPProblemDefinitionError as e:
+            # the initial state violates a state invariant or a bounded type: no plan is valid
+            return invalid_result(
+                f"The initial state is not valid: {str(e)}",
+                [],
+                FailedValidationReason.UNSATISFIED_GOALS,
+            )
         for i, ai in zip(range(1, len(plan.actions) + 1), plan.actions):
             try:
                 unsat_conds, reason = simulator.get_unsatisfied_conditions(
